@@ -170,6 +170,26 @@ func loadFindings() ([]Finding, error) {
 // Finish prints the verdict lines, writes evidence and replay files, and
 // returns the process exit code.
 func (r *Report) Finish(replayFilter string) int {
+	// evidence must not depend on map iteration order
+	sort.SliceStable(r.Obligs, func(i, j int) bool {
+		a, b := r.Obligs[i], r.Obligs[j]
+		if a.Rule != b.Rule {
+			return a.Rule < b.Rule
+		}
+		if a.Construct != b.Construct {
+			return a.Construct < b.Construct
+		}
+		if a.File != b.File {
+			return a.File < b.File
+		}
+		if a.Line != b.Line {
+			return a.Line < b.Line
+		}
+		if a.Status != b.Status {
+			return a.Status < b.Status
+		}
+		return a.Detail < b.Detail
+	})
 	findings, ferr := loadFindings()
 	if ferr != nil {
 		r.Fail("R00", "known_findings#load", token.NoPos, "", ferr.Error())
